@@ -199,6 +199,19 @@ package wkbcommon
 //@ func Scan(g, d) (geom, srid, valid, err)
 //@   requires destOK(g)
 //@   ensures err == ErrNotWKBHeader ==> istype(d, []byte) && len(as(d, []byte)) >= 5
+// with a typed destination the value returned (and stored) has exactly the destination's kind — the
+// documented coercions all end in that kind, every other mismatch is an error; nothing is reported
+// valid together with an error
+//@   ensures err != nil ==> !valid && geom == nil
+//@   ensures err == nil && valid && istype(g, *orb.Point) ==> istype(geom, orb.Point)
+//@   ensures err == nil && valid && istype(g, *orb.MultiPoint) ==> istype(geom, orb.MultiPoint)
+//@   ensures err == nil && valid && istype(g, *orb.LineString) ==> istype(geom, orb.LineString)
+//@   ensures err == nil && valid && istype(g, *orb.MultiLineString) ==> istype(geom, orb.MultiLineString)
+//@   ensures err == nil && valid && istype(g, *orb.Ring) ==> istype(geom, orb.Ring)
+//@   ensures err == nil && valid && istype(g, *orb.Polygon) ==> istype(geom, orb.Polygon)
+//@   ensures err == nil && valid && istype(g, *orb.MultiPolygon) ==> istype(geom, orb.MultiPolygon)
+//@   ensures err == nil && valid && istype(g, *orb.Collection) ==> istype(geom, orb.Collection)
+//@   ensures err == nil && valid && istype(g, *orb.Bound) ==> istype(geom, orb.Bound)
 
 // the sums of GeomLength are treated as mathematical integers (an overflow needs more than 2^47
 // bytes of geometry, or headers aliasing one huge array; listed as an assumption)
